@@ -97,6 +97,11 @@ func suiteSizing(c *Ctx) {
 		sizingCMS(c, cfg[0], cfg[1], false)
 		sizingCMS(c, cfg[0], cfg[1], true)
 	}
+	// bimodal streams (a fifth of the columns' worth of heavy keys, many light ones), both backends
+	for _, cfg := range [][2]float64{{0.01, 0.01}, {0.05, 0.05}, {0.02, 0.1}} {
+		sizingCMSBimodal(c, cfg[0], cfg[1], false)
+		sizingCMSBimodal(c, cfg[0], cfg[1], true)
+	}
 	for _, cfg := range [][3]float64{{1000, 4, 0.01}, {1000, 4, 0.0001}, {2000, 2, 0.1}} {
 		sizingCuckoo(c, uint64(cfg[0]), uint64(cfg[1]), cfg[2], probes)
 	}
@@ -238,4 +243,56 @@ func sizingCMSRedis(c *Ctx, eps, delta float64, skewed bool) {
 		c.fail([]string{"C15", "C03"}, "cms-overestimate-above-budget", fmt.Sprintf("CountMinSketchRedis(eps=%g,delta=%g,skewed=%v): %d of %d keys off by more than eps*N", eps, delta, skewed, bad, keys),
 			map[string]interface{}{"eps": eps, "delta": delta, "skewed": skewed, "seed": c.seed, "backend": "redis"})
 	}
+}
+
+// bimodal stream: heavy keys of weight 1000 (about a fifth of the number of columns) and 400
+// light keys of a one-digit weight; every light key is queried.  A light key is over-estimated by
+// more than eps*N only if it meets a heavy key in EVERY row.
+func sizingCMSBimodal(c *Ctx, eps, delta float64, redis bool) {
+	var s cmsHandle
+	var cols uint
+	if redis {
+		h, err := gostatix.NewCountMinSketchRedisFromEstimates(eps, delta)
+		if err != nil || h == nil {
+			return
+		}
+		s = cmsRedis{h}
+		cols = h.GetColumns()
+	} else {
+		h, err := gostatix.NewCountMinSketchFromEstimates(eps, delta)
+		if err != nil || h == nil {
+			return
+		}
+		s = cmsMem{h}
+		cols = h.GetColumns()
+	}
+	c.rep.Cases++
+	heavy := int(cols)/5 + 1
+	light := 400
+	lw := uint64(2 + c.rng.Intn(8))
+	var total uint64
+	for i := 0; i < heavy; i++ {
+		s.Update([]byte(fmt.Sprintf("heavy-%d-%d", c.seed, i)), 1000)
+		total += 1000
+	}
+	for i := 0; i < light; i++ {
+		s.Update([]byte(fmt.Sprintf("light-%d-%d", c.seed, i)), lw)
+		total += lw
+	}
+	bad, under := 0, 0
+	for i := 0; i < light; i++ {
+		est, _ := s.Count([]byte(fmt.Sprintf("light-%d-%d", c.seed, i)))
+		if est < lw {
+			under++
+		} else if float64(est-lw) > eps*float64(total) {
+			bad++
+		}
+	}
+	c.op(fmt.Sprintf("stat.cms.bimodal.redis=%v", redis))
+	c.sample(map[string]interface{}{"cms-bimodal": fmt.Sprintf("eps=%g delta=%g redis=%v heavy=%d light=%d", eps, delta, redis, heavy, light), "fraction_over_eps": float64(bad) / float64(light)})
+	if under > 0 || overBudget(bad, light, delta) {
+		c.fail([]string{"C15", "C03"}, "cms-overestimate-above-budget", fmt.Sprintf("CountMinSketch(eps=%g,delta=%g,redis=%v), %d heavy keys of weight 1000 and %d light keys of weight %d: %d light keys over-estimated by more than eps*N, %d under-estimated", eps, delta, redis, heavy, light, lw, bad, under),
+			map[string]interface{}{"eps": eps, "delta": delta, "redis": redis, "heavy": heavy, "light": light, "light_weight": lw, "seed": c.seed})
+	}
+	c.nontrivial(fmt.Sprintf("cms-bimodal %g %g %v", eps, delta, redis))
 }
